@@ -433,11 +433,11 @@ func (rc *recorder) roundTrips(t *testing.T, enc encoded, sszWire bool) {
 			ptr := e.New()
 			var err error
 			if p, msg := safe(func() { err = ptr.(ssz.Unmarshaler).UnmarshalSSZ(enc.ssz) }); p {
-				rc.rtFail(e, "ssz", "panic: "+msg, enc.ssz, "ssz")
+				rc.rtFail(e, "ssz", "panic: "+msg, enc.json, "json")
 			} else if err != nil {
-				rc.rtFail(e, "ssz", "decode of own encoding failed: "+err.Error(), enc.ssz, "ssz")
+				rc.rtFail(e, "ssz", "decode of own encoding failed: "+err.Error(), enc.json, "json")
 			} else if d := same(v, deref(ptr)); d != "" {
-				rc.rtFail(e, "ssz", d, enc.ssz, "ssz")
+				rc.rtFail(e, "ssz", d, enc.json, "json")
 			}
 		}
 		// JSON
@@ -512,30 +512,30 @@ func (rc *recorder) roundTrips(t *testing.T, enc encoded, sszWire bool) {
 		}
 		pb2 := new(pbv1.ParSignedDataSet)
 		if err := proto.Unmarshal(wire, pb2); err != nil {
-			rc.rtFail(e, "proto-"+mode, "proto.Unmarshal failed: "+err.Error(), wire, "bytes")
+			rc.rtFail(e, "proto-"+mode, "proto.Unmarshal failed: "+err.Error(), enc.json, "json")
 			return
 		}
 		back, err := core.ParSignedDataSetFromProto(e.Duty, pb2)
 		if err != nil {
-			rc.rtFail(e, "proto-"+mode, "FromProto of own encoding failed: "+err.Error(), wire, "bytes")
+			rc.rtFail(e, "proto-"+mode, "FromProto of own encoding failed: "+err.Error(), enc.json, "json")
 			return
 		}
 		if len(back) != 2 {
-			rc.rtFail(e, "proto-"+mode, fmt.Sprintf("set size %d != 2", len(back)), wire, "bytes")
+			rc.rtFail(e, "proto-"+mode, fmt.Sprintf("set size %d != 2", len(back)), enc.json, "json")
 		}
 		for k, b := range back {
 			if _, ok := set[k]; !ok {
-				rc.rtFail(e, "proto-"+mode, "unknown key came back", wire, "bytes")
+				rc.rtFail(e, "proto-"+mode, "unknown key came back", enc.json, "json")
 			}
 			if b.ShareIdx != 3 {
-				rc.rtFail(e, "proto-"+mode, fmt.Sprintf("share index %d != 3", b.ShareIdx), wire, "bytes")
+				rc.rtFail(e, "proto-"+mode, fmt.Sprintf("share index %d != 3", b.ShareIdx), enc.json, "json")
 			}
 			if d := same(v, b.SignedData); d != "" {
-				rc.rtFail(e, "proto-"+mode, d, wire, "bytes")
+				rc.rtFail(e, "proto-"+mode, d, enc.json, "json")
 			}
 		}
 		if !bytes.Equal(pb.GetSet()[string(testPK)].GetSignature(), psd.Signature()) {
-			rc.rtFail(e, "proto-"+mode, "proto signature field differs from Signature()", wire, "bytes")
+			rc.rtFail(e, "proto-"+mode, "proto signature field differs from Signature()", enc.json, "json")
 		}
 	} else {
 		set := core.UnsignedDataSet{testPK: v.(core.UnsignedData), core.PubKey("0x" + strings.Repeat("ab", 48)): v.(core.UnsignedData)}
@@ -551,20 +551,20 @@ func (rc *recorder) roundTrips(t *testing.T, enc encoded, sszWire bool) {
 		}
 		pb2 := new(pbv1.UnsignedDataSet)
 		if err := proto.Unmarshal(wire, pb2); err != nil {
-			rc.rtFail(e, "proto-"+mode, "proto.Unmarshal failed: "+err.Error(), wire, "bytes")
+			rc.rtFail(e, "proto-"+mode, "proto.Unmarshal failed: "+err.Error(), enc.json, "json")
 			return
 		}
 		back, err := core.UnsignedDataSetFromProto(e.Duty, pb2)
 		if err != nil {
-			rc.rtFail(e, "proto-"+mode, "FromProto of own encoding failed: "+err.Error(), wire, "bytes")
+			rc.rtFail(e, "proto-"+mode, "FromProto of own encoding failed: "+err.Error(), enc.json, "json")
 			return
 		}
 		if len(back) != 2 {
-			rc.rtFail(e, "proto-"+mode, fmt.Sprintf("set size %d != 2", len(back)), wire, "bytes")
+			rc.rtFail(e, "proto-"+mode, fmt.Sprintf("set size %d != 2", len(back)), enc.json, "json")
 		}
 		for _, b := range back {
 			if d := same(v, b); d != "" {
-				rc.rtFail(e, "proto-"+mode, d, wire, "bytes")
+				rc.rtFail(e, "proto-"+mode, d, enc.json, "json")
 			}
 		}
 	}
@@ -802,6 +802,9 @@ func envMutants(shape string, b, other []byte, r *rand.Rand) []mutant {
 		}
 		add("o0=9,gap", append(append(append([]byte(nil), put32(put32(b, 0, 9), 4, 137)[:8]...), 0xee), b[8:]...))
 		add("o0>o1", put32(put32(b, 0, 140), 4, 136))
+		add("o0=0,o1=128", put32(put32(b, 0, 0), 4, 128))
+		add("o0=4,o1=132", put32(put32(b, 0, 4), 4, 132))
+		add("o0=o1=8", put32(put32(b, 0, 8), 4, 8))
 	} else {
 		for _, v := range []uint64{0, 1, 2, 3, 4, 5, 6, 7, 8, 255, 256, 1 << 32, 1 << 63, ^uint64(0)} {
 			add(fmt.Sprintf("ver=%d", v), put64(b, 0, v))
@@ -1160,6 +1163,8 @@ func errorsIs(err, target error) bool {
 
 type Replay struct {
 	Key    string `json:"key"`
+	Class  string `json:"class"`
+	Type   string `json:"type"`
 	Format string `json:"format"`
 	Input  string `json:"input"`
 	Duty   int    `json:"duty"`
@@ -1185,6 +1190,26 @@ func TestGen(t *testing.T) {
 			data = []byte(rp.Input)
 		} else {
 			data, _ = hex.DecodeString(rp.Input)
+		}
+		if rp.Class == "roundtrip" {
+			// the input is the JSON encoding of a value: rebuild the value and run the round trips on it
+			for _, e := range catalogue() {
+				if e.GoType != rp.Type {
+					continue
+				}
+				ptr := e.New()
+				if err := json.Unmarshal(data, ptr); err != nil {
+					t.Fatalf("replay: the JSON of the value does not decode as %s: %v", rp.Type, err)
+				}
+				v := deref(ptr)
+				jb, sb, _, err := canonical(v)
+				if err != nil {
+					t.Fatalf("replay: value does not encode: %v", err)
+				}
+				e.Name, e.KeyName = "replay:"+rp.Type, "replay:"+rp.Type
+				rc.roundTrips(t, encoded{e: e, val: v, ssz: sb, json: jb}, true)
+				break
+			}
 		}
 		ev.explore(rc, dutyTypes, data, rp.Format, "replay", func(signed bool, typ, op string) (string, string, string) {
 			return "replay:" + typ + ":" + op, "", ""
